@@ -218,6 +218,36 @@ theorem replay_not_refused_partial {S I : Type} (k : SignNode.Core S I) (ins : L
   exact repeat_reuses sigOf l hl es hidle (SignNode.stamp t' q) st sb lsb lsig
     (by rw [SignNode.reqStep_stamp]; exact hst) hsb hdisk hdsig hts
 
+/-! ### restarts go through a loader -/
+
+/-- **A restart with an existing state file resumes from it.** For the loader every node start uses
+(`LoadOrGenFilePV`, `node/node.go DefaultNewNode`) and for `LoadFilePV`: when key file and state
+file exist, the restart is exactly `Ev.crash` — memory := state file — so every theorem above about
+event lists covers it. -/
+theorem restart_with_state_file_resumes (sigOf : SB → Sig) (c : Cfg Sig) :
+    restartWith sigOf nodeLoader true true c = some (step sigOf c .crash).1 ∧
+    restartWith sigOf .loadOrGen true true c = some (step sigOf c .crash).1 ∧
+    restartWith sigOf .load true true c = some (step sigOf c .crash).1 :=
+  ⟨rfl, rfl, rfl⟩
+
+/-- the whole decision table: a loader that comes up with an existing state file WITHOUT resuming
+from it is `LoadFilePVEmptyState` (or a freshly generated key) and nothing else; a missing state
+file with an existing key never yields an empty sign state silently — the process exits -/
+theorem loader_table :
+    (∀ ld st, loaderDecision ld true st = .empty ↔ ld = .emptyState) ∧
+    (∀ ld, loaderDecision ld true true = .resume ↔ (ld = .loadOrGen ∨ ld = .load)) ∧
+    loaderDecision .loadOrGen true false = .exit ∧ loaderDecision .load true false = .exit ∧
+    (∀ st, loaderDecision .loadOrGen false st = .generate) := by
+  refine ⟨?_, ?_, rfl, rfl, fun st => rfl⟩
+  · intro ld st; cases ld <;> cases st <;> decide
+  · intro ld; cases ld <;> decide
+
+/-- a history whose restarts all go through the node's loader with both files present is an event
+list of the signer machine: `released_consistent` applies to it -/
+theorem node_restarts_are_crash_events (sigOf : SB → Sig) (c c' : Cfg Sig)
+    (h : restartWith sigOf nodeLoader true true c = some c') : c' = run sigOf c [.crash] := by
+  cases h; rfl
+
 /-! ### composition with the consensus model (C02's `Tmv.Cons`) and the WAL (C15) -/
 
 /-- **The property, composed.** `Node04` = the consensus state machine of one height (`Cons.step`,
@@ -625,5 +655,19 @@ theorem rename_durability_needed :
   refine ⟨⟨exSBA, exSBA, exSBA⟩, ?_, ⟨exSBN, exSBN, exSBN⟩, ?_, by decide, by decide⟩
   · rw [h]; exact List.mem_cons_of_mem _ (List.mem_cons_self ..)
   · rw [h]; exact List.mem_cons_self ..
+
+/-- **Why only the reset commands may use `LoadFilePVEmptyState`.** A restart that comes up with an
+empty sign state although the state file holds a signature lets the key sign another block for a
+height/round/step it already signed: the main clause fails (witness: prevote for block A released,
+restart with empty state, prevote for nil at the same height/round released). -/
+theorem empty_state_restart_breaks_consistency :
+    ∃ c1 c2 : Cfg SB, c1 = run id (init genesis) [.req (exReq 5), .tick, .tick, .tick, .tick, .tick] ∧
+      restartWith id .emptyState true true c1 = some c2 ∧
+      ∃ e1 ∈ (run id c2 [.req (exNil 6), .tick, .tick, .tick, .tick, .tick]).rel,
+      ∃ e2 ∈ (run id c2 [.req (exNil 6), .tick, .tick, .tick, .tick, .tick]).rel,
+        hrsOf e1.sb = hrsOf e2.sb ∧ e1.sb.bid ≠ e2.sb.bid := by
+  refine ⟨_, _, rfl, rfl, ⟨exSBA, exSBA, exSBA⟩, ?_, ⟨exSBN, exSBN, exSBN⟩, ?_, by decide, by decide⟩
+  · exact List.mem_cons_of_mem _ (List.mem_cons_self ..)
+  · exact List.mem_cons_self ..
 
 end Tmv.Props.C04
